@@ -1,6 +1,6 @@
 #!/bin/bash
 # usage: try_mutant.sh <patch.diff> [prop ...]
-# Applies the patch to /repo, runs the quick checks (all claimed properties by
+# Applies the patch to a scratch worktree of /repo's HEAD, runs the quick checks (all claimed properties by
 # default) without touching the evidence files, reports which fire, and always
 # restores /repo afterwards.
 set -u
@@ -8,18 +8,18 @@ PATCH="$1"; shift
 cd /verif
 PROPS="$*"
 if [ -z "$PROPS" ]; then PROPS=$(python3 -c "import json; print(' '.join(c['property_id'] for c in json.load(open('/verif/MANIFEST.json'))['checks']))"); fi
-if [ -n "$(git -C /repo status --porcelain)" ]; then echo "repo not clean"; exit 2; fi
-trap 'git -C /repo checkout -- . >/dev/null 2>&1' EXIT
-if ! git -C /repo apply "$PATCH" 2>/dev/null; then
-  if ! git -C /repo apply --3way "$PATCH" 2>/dev/null; then
-    if ! (cd /repo && patch -p1 --fuzz=3 -s < "$PATCH"); then echo "PATCH DOES NOT APPLY"; exit 3; fi
-  fi
+# a private scratch worktree of /repo's HEAD (outside /repo and /verif), removed afterwards
+T=${TRIAL_DIR:-/tmp/wt/trial-$$}
+git -C /repo worktree add -q --detach "$T" HEAD || exit 2
+trap 'git -C /repo worktree remove --force "$T" >/dev/null 2>&1' EXIT
+if ! git -C "$T" apply "$PATCH" 2>/dev/null; then
+  if ! (cd "$T" && patch -p1 --fuzz=3 -s < "$PATCH"); then echo "PATCH DOES NOT APPLY"; exit 3; fi
 fi
 export GOFLAGS=-mod=mod GOPROXY=off GOSUMDB=off GOTOOLCHAIN=local
-(cd /repo && go build ./... ) || { echo "DOES NOT BUILD"; exit 4; }
+(cd "$T" && go build ./... ) || { echo "DOES NOT BUILD"; exit 4; }
 fired=""
 for p in $PROPS; do
-  out=$(/verif/bin/lzcheck -verif /verif -repo /repo -property $p -no-evidence 2>&1)
+  out=$(timeout 600 /verif/bin/lzcheck -verif /verif -repo "$T" -property $p -no-evidence 2>&1)
   if echo "$out" | grep -q '^VIOLATION'; then
     fired="$fired $p"
     echo "$out" | grep -v '^VIOLATION' | grep -v '^lzcheck\|KNOWN-FINDING' | cut -c1-260 | sed "s/^/  [$p] /" | head -4
